@@ -13,17 +13,18 @@ import (
 // Instance is one simulated simpleiot instance: a bus server, the real store
 // on its own SQLite file, and harness connections.
 type Instance struct {
-	s       *Sim
-	Name    string
-	Token   string
-	File    string
-	RootID  string
-	StoreNc *nats.Conn
-	Store   *store.Store
-	Obs     *nats.Conn // harness observer connection
-	running bool
-	runDone chan error
-	Starts  int
+	s        *Sim
+	Name     string
+	Token    string
+	File     string
+	RootID   string
+	StoreNc  *nats.Conn
+	Store    *store.Store
+	Obs      *nats.Conn // harness observer connection
+	TopLevel []string   // ids of nodes the workload placed under the pseudo-parent "none" (included in Dump)
+	running  bool
+	runDone  chan error
+	Starts   int
 }
 
 func (in *Instance) URL() string       { return "nats://" + in.Name + ".local:4222" }
@@ -156,6 +157,19 @@ func (in *Instance) Dump() (edges []data.NodeEdge, err error) {
 		}
 		for _, r := range roots {
 			walk(r, 0)
+		}
+		// placements without a parent ("none") cannot be listed; the workload names the nodes it gave one
+		for _, id := range in.TopLevel {
+			es, e := client.GetNodes(in.Obs, "all", id, "", true)
+			if e != nil {
+				err = fmt.Errorf("get placements of %s: %w", id, e)
+				return
+			}
+			for _, n := range es {
+				if n.Parent == "none" {
+					walk(n, 0)
+				}
+			}
 		}
 	})
 	return
